@@ -109,6 +109,15 @@ def gen_code_programs():
                               'ENDIF', 'ELSE', 'V1 = THETA(3)', 'ENDIF', 'Y = V1 + EPS(1)'],
         'block-logical-if-inside': ['IF (APGR.LT.6) THEN', 'V1 = THETA(1)', 'IF (WGT.GT.70) V1 = THETA(2)', 'ELSE',
                                     'V1 = THETA(3)', 'ENDIF', 'Y = V1 + EPS(1)'],
+        # a variable assigned only in a LATER branch of a block IF (with / without an earlier value)
+        'block-else-only-var': ['V1 = 0', 'V2 = 0', 'IF (APGR.LT.3) THEN', 'V1 = THETA(1)', 'ELSE', 'V2 = THETA(2)', 'ENDIF',
+                                'Y = V1 + V2 + EPS(1)'],
+        'block-elseif-only-var': ['V1 = 0', 'V2 = 0', 'IF (APGR.LT.3) THEN', 'V1 = THETA(1)', 'ELSE IF (APGR.LT.6) THEN',
+                                  'V2 = THETA(2)', 'END IF', 'Y = V1 + V2 + EPS(1)'],
+        'block-elseif-only-var-else': ['V1 = 0', 'V2 = 0', 'IF (APGR.LT.3) THEN', 'V1 = THETA(1)', 'ELSE IF (APGR.LT.6) THEN',
+                                       'V2 = THETA(2)', 'ELSE', 'V1 = THETA(3)', 'END IF', 'Y = V1 + V2 + EPS(1)'],
+        'block-else-only-var-no-prior': ['V1 = 0', 'IF (APGR.LT.3) THEN', 'V1 = THETA(1)', 'ELSE', 'V2 = THETA(2)', 'ENDIF',
+                                         'Y = V1 + EPS(1)'],
         'reassign': ['V1 = THETA(1)', 'V2 = V1*WGT', 'V1 = V1 + THETA(2)', 'Y = V1 + V2 + EPS(1)'],
         'self-ref': ['V1 = THETA(1)', 'V1 = V1*V1', 'V1 = V1/WGT', 'Y = V1 + EPS(1)'],
         'cond-uses-var': ['V1 = THETA(1)*WGT', 'IF (V1.GT.3) V1 = 3', 'Y = V1 + EPS(1)'],
